@@ -24,6 +24,7 @@ TRUSTED = [
 EXTRA_CORR = {
     "CasesC19A.v": [("c19al_mismatches", "CasesC19AL.idx", "labels: listing after every installation of the real WithAddedKeyUpsertCertIntoAgentConnection, again and again under one label and its neighbours, for every class of label byte string (plain, space, tab, line end, control bytes, multi-byte characters, Unicode spaces, 3-5 kB, empty, prefix of another, other case, outer spaces, space runs, random bytes) = model install_cert (%s installations)", "c19al_ncases"),
                     ("c19ae_mismatches", "CasesC19AE.idx", "which agent (library): success flag and the listing of EVERY agent of the scene (the one SSH_AUTH_SOCK names and the decoys at conventional places) after WithAddedKeyUpsertCertIntoAgent / UpsertCertIntoAgent in every agent environment situation = model world_upsert (%s scenes)", "c19ae_ncases")],
+    "CasesC19S.v": [("c19k_mismatches", "CasesC19K.idx", "server key material: daemon states built through the configuration path with every CA key file (main CA RSA / P-256 / P-384 / P-521 as PKCS#8, PKCS#1 / SEC1, OpenSSH; Ed25519 CA absent, PKCS#8, OpenSSH; sealed variants; key files of the wrong kind) x every key type the client offers through certgen ssh and x509: daemon starts or not, answer per key type = model load_signers / ssh_answer_of / x509_certified (%s configurations)", "c19k_ncases")],
     "CasesC19.v": [("c19w_mismatches", "CasesC19W.idx", "client runs with the web-browser login (stored CLI token, verifyToken, browser command, cookie received on the local listener): recorded requests, files, agent labels = model setup_wire_web / install (%s runs)", "c19w_ncases"),
                    ("c19i_mismatches", "CasesC19I.idx", "which agent (client): agents of the scene and files under HOME after insertSSHCertIntoAgentORWriteToFilesystem in every agent environment situation = model install_ssh_env (%s scenes)", "c19i_ncases")],
 }
@@ -37,7 +38,8 @@ VIOLATING = {
                    ("c19i_violating", "private-key-to-undesignated-agent", "CasesC19I.idx", "the new identity is observed in an agent that SSH_AUTH_SOCK does not name"),
                    ("c19i_violating_mode", "key-file-mode", "CasesC19I.idx", "a private key file under HOME is accessible to group/others after the installation")],
     "CasesC19U.v": [("c19u_violating", "private-file-mode", "CasesC19U.idx", "the observed mode of the private key file has group/other bits")],
-    "CasesC19S.v": [("c19s_violating", "offered-refused", "CasesC19S.idx", "the server refuses a key of a type the client offers")],
+    "CasesC19S.v": [("c19s_violating", "offered-refused", "CasesC19S.idx", "the server refuses a key of a type the client offers"),
+                    ("c19k_violating", "offered-refused-ca", "CasesC19K.idx", "a daemon running with this CA key material gives no certificate for a key of a type the client offers although the CA for it is configured")],
 }
 
 def corr(ctx, res, name, label, idxfile):
